@@ -60,6 +60,9 @@ func caseGen() *rapid.Generator[Case] {
 		c.Skip = rapid.SliceOfN(rapid.IntRange(0, 2), 0, 5).Draw(t, "skip")
 		c.Poison = rapid.IntRange(0, 3).Draw(t, "poison") == 0
 		c.AppCB = rapid.SampledFrom([]int{0, 0, 0, 1, 1, 2}).Draw(t, "appcb")
+		if gen.Rarely(t, "churn", 12) {
+			c.Churn = rapid.SampledFrom([]int{66, 67, 130, 131}).Draw(t, "churn-n") // past 64 and 128 registrations of one renderer before the other comes
+		}
 		if rapid.IntRange(0, 3).Draw(t, "props?") == 0 {
 			c.Props = gen.PropHistGen(8).Draw(t, "props")
 		}
